@@ -67,7 +67,8 @@ KNOWN = {
     # JBessel: the divisor min(gamma(nu - d/2 + 1), 100) is also cut for *large*
     # arguments (gamma(x) > 100 for x > 5.89): density too large by
     # gamma(nu-d/2+1)/100 for nu > d/2 + 4.89.
-    "jbessel_gamma_cap": True,
+    # (fixed in /repo by 9ae9f1e: switch off, assertion live)
+    "jbessel_gamma_cap": False,
     # default Hankel transform: heavy spectral tails are not resolved
     # (Stable / TPLStable alpha < 0.6, Rational alpha < 1 in d >= 2): window
     # mass off by 7 % ... 150 %, negative densities.
